@@ -357,6 +357,53 @@ theorem leader_completeness {s : Sys N} (h0 : Inv0 s) (h1 : Inv1 s) (h2 : Inv2 s
         refine ⟨by omega, ?_⟩
         rw [hsplit (s.elog t'), pE, ← hsplit, f4]; exact g2
 
+/-- leader completeness up to a term bound `B`, from links up to `B` only (used to discharge `CommitOK` by induction on the later term) -/
+theorem leader_completeness_upto {s : Sys N} (h0 : Inv0 s) (h1 : Inv1 s) (h2 : Inv2 s) {k t B : Nat} (hk1 : 1 ≤ k)
+    (hkt : termAt (s.llog t) k = t)
+    (hlink : ∀ t' c, t < t' → t' ≤ B → s.isLdr t' c →
+      (∃ y, y ∈ s.equo t' ∧ ∃ n, k ≤ n ∧ s.acks t y n) ∨
+      (∃ idx, k ≤ idx ∧ idx ≤ (s.elog t').length ∧ t ≤ termAt (s.elog t') idx ∧ termAt (s.elog t') idx < t')) :
+    ∀ t', t < t' → t' ≤ B → ∀ c, s.isLdr t' c → Good s.llog (s.elog t') t k := by
+  intro t'
+  induction t' using Nat.strong_induction_on with
+  | _ t' ih =>
+    intro htt hB c hl
+    rcases hlink t' c htt hB hl with ⟨y, hy2, n, hkn, ha⟩ | ⟨idx, hki, hie, hge, hlt⟩
+    · rcases h2.eq t' c hl y hy2 t n k ha htt hk1 hkn hkt with g | b
+      · exact g
+      · obtain ⟨t'', b1, b2, ⟨l, b3⟩, b4⟩ := b
+        exact absurd (ih t'' (by omega) b1 (by omega) l b3) b4
+    · obtain ⟨_, e2, e3, _⟩ := h1.el t' c hl
+      have hidx1 : 1 ≤ idx := by omega
+      have e4 : (s.elog t').take idx = (s.llog t').take idx := by
+        rw [← e3, List.take_take, Nat.min_eq_left hie]
+      have e5 : termAt (s.elog t') idx = termAt (s.llog t') idx := by
+        rw [← e3]; exact termAt_take _ hie
+      have pE : (s.elog t').take idx = (s.llog (termAt (s.elog t') idx)).take idx := by
+        rw [e4, e5]; exact h0.p_llog t' idx hidx1 (by omega)
+      have hlenE : ((s.elog t').take idx).length = idx := by simp [List.length_take, hie]
+      have hsplit : ∀ (X : Log), X.take k = (X.take idx).take k := by
+        intro X; rw [List.take_take, Nat.min_eq_left hki]
+      by_cases he : termAt (s.elog t') idx = t
+      · rw [he] at pE
+        refine ⟨by omega, ?_⟩
+        rw [hsplit (s.elog t'), pE, ← hsplit]
+      · have htm : t < termAt (s.elog t') idx := by omega
+        have hex : ∃ l, s.isLdr (termAt (s.elog t') idx) l := by
+          apply Classical.byContradiction
+          intro hno
+          have hnone := h0.llog_none (termAt (s.elog t') idx) (fun i hi => hno ⟨i, hi⟩)
+          rw [pE, hnone] at hlenE
+          simp at hlenE; omega
+        obtain ⟨l, hl'⟩ := hex
+        obtain ⟨g1, g2⟩ := ih _ hlt htm (by omega) l hl'
+        obtain ⟨_, _, f3, _⟩ := h1.el _ l hl'
+        have f4 : (s.llog (termAt (s.elog t') idx)).take k = (s.elog (termAt (s.elog t') idx)).take k := by
+          rw [← f3, List.take_take, Nat.min_eq_left g1]
+        refine ⟨by omega, ?_⟩
+        rw [hsplit (s.elog t'), pE, ← hsplit, f4]; exact g2
+
+
 #print axioms leader_completeness
 
 /-! ## commitment and state-machine safety -/
